@@ -416,7 +416,7 @@ class CouplingAnalysisPurePython:
         """
 
         # get the bin quantile steps
-        bin_edge = numpy.ceil(self.total_time/float(bins))
+        bin_edge = int(numpy.ceil(self.total_time/float(bins)))
 
         array = self.dataarray[:, :]
         array[:-tau, 1] = array[tau, 1]
@@ -518,7 +518,7 @@ class CouplingAnalysisPurePython:
             range(tau_max, self.total_time - tau_max))[:sample_range]
 
         # get the bin quantile steps
-        bin_edge = numpy.ceil(sample_range/float(bins))
+        bin_edge = int(numpy.ceil(sample_range/float(bins)))
 
         symbolic_array = numpy.empty((2*tau_max + 1, self.N, sample_range),
                                      dtype=dtype)
